@@ -13,6 +13,7 @@ package main
 
 import (
 	"bytes"
+	"context"
 	"crypto/tls"
 	"encoding/binary"
 	"fmt"
@@ -149,6 +150,7 @@ type handler struct {
 	curFull  *[]int // filled by OnStreamWriteError during a write (same goroutine as the writer)
 	otherErr atomic.Int64
 	unattr   map[int]int // queue-full reports that cannot be attributed to one write (concurrent writers)
+	onPause  func(k int)
 	// relay
 	relay     bool
 	onRecord  func(ctx *gortsplib.ServerHandlerOnRecordCtx)
@@ -201,6 +203,12 @@ func (h *handler) OnRecord(ctx *gortsplib.ServerHandlerOnRecordCtx) (*base.Respo
 }
 
 func (h *handler) OnPause(ctx *gortsplib.ServerHandlerOnPauseCtx) (*base.Response, error) {
+	if h.onPause != nil {
+		h.mu.Lock()
+		k := h.sessIdx[ctx.Session]
+		h.mu.Unlock()
+		h.onPause(k)
+	}
 	if os.Getenv("PIPELINE_DEBUG") != "" {
 		h.mu.Lock()
 		k := h.sessIdx[ctx.Session]
@@ -1001,10 +1009,34 @@ type shadow struct {
 	pendAct bool
 	gone    bool
 	closing bool // the stop in progress is a Close of the client, not a PAUSE
+	win     int  // number of the current play window
+	accepted []int // writes accepted by this reader's queue in the current window (for back-counting)
 	rx      map[[2]int][2]int // UDP receiver per (m,f): last delivered write index, consecutive late arrivals
 }
 
+// caseLine builds the model trace.  The instant at which the server closes a reader's writer during a
+// stop is not in the log; the builder first assumes "as late as possible" and, where a queue-full report
+// contradicts that (a closed ring whose consumer has gone fills after Q pushes although few are pending),
+// rebuilds with the close forced Q accepted pushes before that report.
 func (hp *hop) caseLine() string {
+	forced := map[[2]int]int{}
+	for iter := 0; ; iter++ {
+		line, bad := hp.buildTrace(forced)
+		if bad == nil || iter > 12 {
+			return line
+		}
+		key := [2]int{bad[0], bad[1]}
+		if _, done := forced[key]; done {
+			return line
+		}
+		forced[key] = bad[2]
+	}
+}
+
+// buildTrace returns the trace and, if a queue-full report could not be explained with the current
+// placement, (reader, play window number, write index before which the writer must already be closed).
+func (hp *hop) buildTrace(forced map[[2]int]int) (string, []int) {
+	var bad []int
 	var l hx.L
 	l.N(1).I(hp.q).I(recvBufferSize).I(len(hp.medias))
 	for _, fs := range hp.medias {
@@ -1109,13 +1141,14 @@ func (hp *hop) caseLine() string {
 		ctl(cNilW, r)
 		s.w, s.queue, s.ring = 0, nil, nil
 	}
-	stopEmitted := map[int]bool{} // event positions of stop requests already emitted (moved before an overlapping write)
-	playEmitted := map[int]bool{} // same for PLAY requests
+	consumed := map[int]bool{} // control events already replayed (moved before a write they overlap with)
 	playReq := func(r int) {
 		s := sh[r]
 		ctl(cPlayReq, r)
 		ctl(cCreate, r)
 		s.ph, s.w, s.started, s.queue = 1, 1, false, nil
+		s.win++
+		s.accepted = nil
 		if !hp.readers[r].tcp {
 			// UDP: startWriter precedes readerSetActive; activating as early as possible is always
 			// explainable (what was not really pushed counts as lost datagrams)
@@ -1163,13 +1196,12 @@ func (hp *hop) caseLine() string {
 			}
 		}
 	}
-	for pos, e := range hp.events {
+	// doCtl replays one control event of the log
+	doCtl := func(pos int, e event) {
 		switch e.kind {
 		case evPlayB:
-			if !playEmitted[pos] {
-				playReq(e.r)
-				planActivation(e.r, pos+1)
-			}
+			playReq(e.r)
+			planActivation(e.r, pos+1)
 		case evPlayE:
 			s := sh[e.r]
 			if s.pendAct {
@@ -1180,7 +1212,7 @@ func (hp *hop) caseLine() string {
 			s.ph = 2
 		case evStopB, evCloseB:
 			s := sh[e.r]
-			if !stopEmitted[pos] && (s.ph == 1 || s.ph == 2) {
+			if s.ph == 1 || s.ph == 2 {
 				ctl(cStopReq, e.r)
 				s.ph = 3
 				s.closing = e.kind == evCloseB
@@ -1203,29 +1235,62 @@ func (hp *hop) caseLine() string {
 				sh[e.r].wire = nil
 				sh[e.r].gone = true
 			}
+		}
+	}
+	for pos, e := range hp.events {
+		switch e.kind {
+		case evPlayB, evPlayE, evStopB, evCloseB, evStopE, evCloseE:
+			if !consumed[pos] {
+				doCtl(pos, e)
+			}
 		case evWb:
 			w := hp.writes[e.w]
-			// A stop requested while this write was in progress is concurrent with it: the push to that
-			// reader may have happened after the request.  Order the request first.
+			// Control events logged while this write was in progress are concurrent with it: the push to
+			// that reader may have happened after them.  Per reader, decide how many of them come first:
+			//  - a stop request: always (it only widens what the model allows), provided PLAY has completed;
+			//  - with evidence that this very packet reached the reader (delivered later, or refused by its
+			//    queue) and a PLAY beginning in the interval: everything up to the end of that PLAY
+			//    (including the end of the previous PAUSE);
+			//  - the end of a PAUSE otherwise stays after the write.
+			perReader := map[int][]int{}
 			for p2 := pos + 1; p2 < len(hp.events); p2++ {
 				e2 := hp.events[p2]
 				if e2.kind == evWe && e2.w == e.w {
 					break
 				}
-				if (e2.kind == evStopB || e2.kind == evCloseB) && !stopEmitted[p2] {
-					if s2 := sh[e2.r]; s2.ph == 1 || s2.ph == 2 {
-						ctl(cStopReq, e2.r)
-						s2.ph = 3
-						s2.closing = e2.kind == evCloseB
-						stopEmitted[p2] = true
+				switch e2.kind {
+				case evPlayB, evPlayE, evStopB, evCloseB, evStopE, evCloseE:
+					if !consumed[p2] {
+						perReader[e2.r] = append(perReader[e2.r], p2)
 					}
 				}
-				// likewise a PLAY that began while this write was in progress, if this very packet reached
-				// that reader (or was refused by its queue)
-				if e2.kind == evPlayB && !playEmitted[p2] && sh[e2.r].ph == 0 && (will[e2.r][w.idx] || w.hasFull(e2.r)) {
-					playReq(e2.r)
-					planActivation(e2.r, pos)
-					playEmitted[p2] = true
+			}
+			for r2 := 0; r2 < nR; r2++ {
+				lst := perReader[r2]
+				if len(lst) == 0 {
+					continue
+				}
+				evidence := hasM(r2, w.m) && (will[r2][w.idx] || w.hasFull(r2))
+				upto := -1 // index in lst up to which events are pulled before the write
+				if evidence {
+					for j, p2 := range lst {
+						if k := hp.events[p2].kind; k == evPlayB || k == evPlayE {
+							upto = j
+						}
+					}
+				}
+				// stop requests directly following what is pulled (or leading the list) are pulled too
+				for j := upto + 1; j < len(lst); j++ {
+					k := hp.events[lst[j]].kind
+					if (k == evStopB || k == evCloseB) && (sh[r2].ph == 2 || upto >= 0) {
+						upto = j
+					} else {
+						break
+					}
+				}
+				for j := 0; j <= upto; j++ {
+					doCtl(lst[j], hp.events[lst[j]])
+					consumed[lst[j]] = true
 				}
 			}
 			for r := 0; r < nR; r++ {
@@ -1237,12 +1302,30 @@ func (hp *hop) caseLine() string {
 					ctl(cActivate, r)
 					s.pendAct, s.active = false, true
 				}
+				if fc, ok := forced[[2]int{r, s.win}]; ok && s.w == 1 && s.ph == 3 && w.idx >= fc {
+					closeW(r)
+				}
 				if !s.active || s.w == 0 {
 					continue
 				}
 				if w.hasFull(r) {
-					continue // the model must find the queue full by itself
+					// the model must find the queue full by itself; if it will not, the writer was closed
+					// earlier than assumed: Q accepted pushes before this one
+					explained := (s.w == 1 && len(s.queue) >= hp.q) || (s.w == 2 && s.ring[s.wp] >= 0)
+					if !explained && s.ph == 3 && bad == nil {
+						k := len(s.accepted) - hp.q
+						if k < 0 {
+							k = 0
+						}
+						at := w.idx
+						if k < len(s.accepted) {
+							at = s.accepted[k]
+						}
+						bad = []int{r, s.win, at}
+					}
+					continue
 				}
+				s.accepted = append(s.accepted, w.idx)
 				tcp := hp.readers[r].tcp
 				// While a stop is in progress the writer is closed at some instant the log does not show.
 				// Keep it open as long as the observations allow; close it (discarding the queue) when a
@@ -1395,7 +1478,7 @@ func (hp *hop) caseLine() string {
 			putPkt(d.seq, d.ts, d.marker, d.pt, d.ssrc, d.payload)
 		}
 	}
-	return l.String()
+	return l.String(), bad
 }
 
 // ---------------------------------------------------------------- scenario: publisher -> server -> readers
@@ -1717,6 +1800,216 @@ func (sc *scenario) runConcurrent() *runResult {
 	return res
 }
 
+// ---------------------------------------------------------------- deterministic reproduction of the known finding
+
+type smallBufListener struct{ net.Listener }
+
+func (l *smallBufListener) Accept() (net.Conn, error) {
+	c, err := l.Listener.Accept()
+	if tc, ok := c.(*net.TCPConn); ok {
+		tc.SetWriteBuffer(64 << 10)
+	}
+	return c, err
+}
+
+// runReorderRepro drives the server into the window between asyncprocessor.Close and writer = nil with a
+// consumer that cannot make progress: a TCP reader whose callback blocks (so the server's consumer blocks in
+// its socket write with 0 < n < Q closures queued) asks for PAUSE; while destroyWriter waits for the
+// consumer, Q more packets are written; then the reader resumes.  With the defect present the reader receives
+// the packets pushed after Close in rotated order.
+func (sc *scenario) runReorderRepro() *runResult {
+	res := &runResult{}
+	rng := hx.NewRand(sc.seed)
+	const Q = 256
+	h := &handler{sessIdx: map[*gortsplib.ServerSession]int{}}
+	paused := make(chan struct{}, 4)
+	h.onPause = func(int) { paused <- struct{}{} }
+	var srv *gortsplib.Server
+	var port int
+	for try := 0; try < 20; try++ {
+		port = freeTCPPort()
+		srv = &gortsplib.Server{
+			Handler: h, RTSPAddress: "127.0.0.1:" + strconv.Itoa(port), WriteQueueSize: Q,
+			DisableRTCPSenderReports: true, ReadTimeout: 20 * time.Second, WriteTimeout: 20 * time.Second,
+			IdleTimeout: 60 * time.Second,
+			Listen: func(network, address string) (net.Listener, error) {
+				l, err := net.Listen(network, address)
+				if err != nil {
+					return nil, err
+				}
+				return &smallBufListener{l}, nil
+			},
+		}
+		if err := srv.Start(); err == nil {
+			break
+		} else if try == 19 {
+			res.fatal = "server start: " + err.Error()
+			return res
+		}
+	}
+	defer srv.Close()
+	desc := mkDesc([]int{1})
+	stream := &gortsplib.ServerStream{Server: srv, Desc: desc}
+	if err := stream.Initialize(); err != nil {
+		res.fatal = "stream init: " + err.Error()
+		return res
+	}
+	defer stream.Close()
+	h.stream = stream
+	hp := &hop{name: "stream->reader (blocked consumer, PAUSE)", q: Q}
+	res.hops = append(res.hops, hp)
+	st := stream.Stats()
+	medi := desc.Medias[0]
+	hp.medias = [][]fmtInfo{{{pt: medi.Formats[0].PayloadType(), ssrc: st.Medias[medi].Formats[medi.Formats[0]].LocalSSRC}}}
+
+	// the reader, with a small receive buffer and a gate in its callback
+	tokens := make(chan struct{}, 1<<16)
+	open := make(chan struct{})
+	rd := &reader{k: 0, info: &readerInfo{tcp: true}}
+	c := &gortsplib.Client{
+		Scheme: "rtsp", Host: "127.0.0.1:" + strconv.Itoa(port), Protocol: protoPtr(gortsplib.ProtocolTCP),
+		ReadTimeout: 20 * time.Second, WriteTimeout: 20 * time.Second, DisableRTCPSenderReports: true,
+		OnPacketsLost: func(uint64) {},
+		DialContext: func(ctx context.Context, network, address string) (net.Conn, error) {
+			var d net.Dialer
+			nc, err := d.DialContext(ctx, network, address)
+			if tc, ok := nc.(*net.TCPConn); ok {
+				tc.SetReadBuffer(64 << 10)
+			}
+			return nc, err
+		},
+	}
+	if err := c.Start(); err != nil {
+		res.fatal = "client start: " + err.Error()
+		return res
+	}
+	rd.c = c
+	u, _ := base.ParseURL("rtsp://127.0.0.1:" + strconv.Itoa(port) + "/stream?r=0")
+	cdesc, _, err := c.Describe(u)
+	if err != nil {
+		res.fatal = "describe: " + err.Error()
+		c.Close()
+		return res
+	}
+	sres, err := c.Setup(cdesc.BaseURL, cdesc.Medias[0], 0, 0)
+	if err != nil {
+		res.fatal = "setup: " + err.Error()
+		c.Close()
+		return res
+	}
+	var th headers.Transport
+	th.Unmarshal(sres.Header["Transport"]) //nolint:errcheck
+	e := setupEntry{m: 0}
+	if th.SSRC != nil {
+		e.has, e.ssrc = true, *th.SSRC
+	}
+	if th.InterleavedIDs != nil {
+		e.ch = th.InterleavedIDs[0]
+	}
+	rd.info.setup = []setupEntry{e}
+	hp.readers = []*readerInfo{rd.info}
+	c.OnPacketRTP(cdesc.Medias[0], cdesc.Medias[0].Formats[0], func(pkt *rtp.Packet) {
+		select {
+		case <-open:
+		case <-tokens:
+		}
+		d := &delivery{r: 0, m: 0, f: 0, seq: pkt.SequenceNumber, ts: pkt.Timestamp, marker: pkt.Marker,
+			pt: pkt.PayloadType, ssrc: pkt.SSRC, payload: append([]byte(nil), pkt.Payload...), keep: pkt, w: -1}
+		hp.log(event{kind: evD, r: 0, d: d})
+	})
+	hp.log(event{kind: evPlayB, r: 0})
+	if _, err := c.Play(nil); err != nil {
+		res.fatal = "play: " + err.Error()
+		c.Close()
+		return res
+	}
+	hp.log(event{kind: evPlayE, r: 0})
+
+	seq := uint16(65536 - 300)
+	idx := 0
+	writeOne := func() bool {
+		w := &wpkt{idx: idx, m: 0, f: 0, seq: seq, ts: uint32(idx) * 3000, marker: idx%7 == 0, pt: hp.medias[0][0].pt,
+			payload: mkPayload(rng, 1400, 0, 0, idx)}
+		seq++
+		pkt := &rtp.Packet{Header: rtp.Header{Version: 2, PayloadType: w.pt, SequenceNumber: w.seq, Timestamp: w.ts, Marker: w.marker},
+			Payload: append([]byte(nil), w.payload...)}
+		hp.mu.Lock()
+		hp.writes = append(hp.writes, w)
+		hp.events = append(hp.events, event{kind: evWb, w: idx})
+		hp.mu.Unlock()
+		var full []int
+		h.curFull = &full
+		err := stream.WritePacketRTP(medi, pkt)
+		h.curFull = nil
+		if err != nil {
+			w.errOther = err.Error()
+		}
+		w.full = full
+		hp.log(event{kind: evWe, w: idx})
+		idx++
+		return len(full) > 0
+	}
+	t0 := time.Now()
+	dbg := func(what string) {
+		if os.Getenv("PIPELINE_DEBUG") != "" {
+			fmt.Fprintf(os.Stderr, "repro: %s at %v (writes %d)\n", what, time.Since(t0), idx)
+		}
+	}
+	// 1. fill: the callback is blocked, so the consumer blocks in its socket write and the queue fills
+	for i := 0; i < 60000; i++ {
+		if writeOne() {
+			break
+		}
+		if i%64 == 63 {
+			time.Sleep(200 * time.Microsecond)
+		}
+	}
+	dbg("filled")
+	// 2. let the reader take about 100 packets: the consumer pulls roughly as many, then blocks again
+	for i := 0; i < 100; i++ {
+		tokens <- struct{}{}
+	}
+	time.Sleep(150 * time.Millisecond)
+	dbg("tokens")
+	// 3. PAUSE: the server closes the processor and waits for the blocked consumer
+	hp.log(event{kind: evStopB, r: 0})
+	pauseDone := make(chan error, 1)
+	go func() {
+		_, err := c.Pause()
+		pauseDone <- err
+	}()
+	select {
+	case <-paused:
+	case <-time.After(5 * time.Second):
+		res.notes = append(res.notes, "repro: the server did not see the PAUSE")
+	}
+	time.Sleep(40 * time.Millisecond)
+	dbg("pause seen")
+	// 4. push Q more packets into the closed ring (the Q+1-th is refused)
+	for i := 0; i < Q+2; i++ {
+		writeOne()
+	}
+	dbg("late pushes")
+	// 5. the reader resumes
+	close(open)
+	select {
+	case err := <-pauseDone:
+		if err != nil {
+			res.notes = append(res.notes, "repro: pause: "+err.Error())
+		}
+	case <-time.After(10 * time.Second):
+		res.notes = append(res.notes, "repro: Pause did not return")
+	}
+	hp.log(event{kind: evStopE, r: 0})
+	dbg("pause done")
+	waitDrain(hp, time.Second)
+	hp.log(event{kind: evCloseB, r: 0})
+	c.Close()
+	hp.log(event{kind: evCloseE, r: 0})
+	dbg("closed")
+	return res
+}
+
 // ---------------------------------------------------------------- driver
 
 func genScenario(rng *hx.Rand, i int, thorough bool) *scenario {
@@ -1784,13 +2077,47 @@ func main() {
 	tlsCert = cert
 	probeRecvBufferSize()
 
+	// corpus: the known finding, reproduced deterministically before anything else
+	{
+		sc := &scenario{kind: "repro", transport: []string{"tcp"}, nMedias: 1, nFormats: []int{1}, nReaders: 1, q: 256, seed: 7, maxPayload: 1460}
+		var res *runResult
+		for try := 0; try < 3; try++ {
+			res = sc.runReorderRepro()
+			if res.fatal == "" && len(res.hops) > 0 {
+				found := false
+				for _, f := range res.hops[0].oracle(sc) {
+					if f.class == "tcp-reorder-push-after-close" {
+						found = true
+					}
+				}
+				if found {
+					break
+				}
+			}
+		}
+		ctx.Eval()
+		ctx.Kind("corpus:reorder-repro")
+		if res.fatal != "" {
+			ctx.Failf(0, "scenario-setup-failed", sc.String(), "%s", res.fatal)
+		} else {
+			for _, note := range res.notes {
+				ctx.Failf(0, "scenario-step-failed", sc.String(), "%s", note)
+			}
+			hp := res.hops[0]
+			idx := ctx.Corr(hp.caseLine(), "1")
+			ctx.Nontrivial(sc.String())
+			for _, f := range hp.oracle(sc) {
+				ctx.Failf(idx, f.class, sc.String(), "hop %s: %s", hp.name, f.detail)
+			}
+		}
+	}
 	malformed(ctx)
 
-	n := ctx.Budget(22, 400)
+	n := ctx.Budget(16, 400)
 	if v := os.Getenv("PIPELINE_RUNS"); v != "" {
 		n, _ = strconv.Atoi(v)
 	}
-	par := 3
+	par := 4
 	type job struct {
 		i   int
 		sc  *scenario
